@@ -390,7 +390,8 @@ nice_candidate_pair_priority (guint32 o_prio, guint32 a_prio)
   const guint64 one = 1;
   const guint64 thirtytwo = 32;
 
-  return (one << thirtytwo) * min + 2 * max + (o_prio > a_prio ? 1 : 0);
+  return (one << thirtytwo) * min + 2 * (guint64) max +
+      (o_prio > a_prio ? 1 : 0);
 }
 
 void
